@@ -88,6 +88,7 @@ hc_prop("C02",
 hc_prop("C05",
     lambda tier: [hc("ideal", 2500, 100000, tier, "C05", packets=T(tier, 300, 1500)),
                   dict(family="ep-ideal", n=T(tier, 150, 6000), params={}),
+                  dict(family="ep-fidelity", n=T(tier, 300, 10000), params={}),
                   dict(family="frag-max", n=T(tier, 14, 200), params={"prop": "C05"}, scalable=False)],
     GEN + "frag-max (ideal form): one packet from the top of the legal range (MAX_PACKET_SIZE = 65536 fragments, MAX-1, the fragment-count boundaries below, 5..95 MB) over a loss-free link. ideal family: no faults, constant latency per direction, bursts above window / allocation / flush budget, both directions. ep-ideal: a real Client and Server configured independently (what each may send 100 B..1 MB, what each can hold 3 kB..1 MB, rates 0.1..10 MB/s: each end has to use the OTHER's advertised allowance), ideal network, both applications submitting up to 1500 packets of every mode in bursts of up to 200 per step, until both ends report nothing pending. non-trivial: >= 50 packets delivered (ep-ideal: finished with >= 100 packets).",
     "Equality oracle: delivered sequence (all channels) must be the submission sequence minus TimeSensitive packets; a fully transmitted TimeSensitive packet must not be skipped; at quiescence every non-TimeSensitive packet delivered exactly once; a scenario that stops making progress with a backlog (the progress monitor's stall signature) counts as packets not delivered. Endpoint level: each application's Receive events are exactly the other's submissions in order, TimeSensitive ones possibly missing.",
@@ -242,6 +243,7 @@ hc_prop("C19",
                   dict(family="disconnect", n=T(tier, 300, 10000), params={}),
                   dict(family="limits", n=T(tier, 100, 4000), params={}),
                   dict(family="ep-partial-read", n=T(tier, 100, 3000), params={}),
+                  dict(family="ep-fidelity", n=T(tier, 200, 5000), params={}),
                   dict(family="ep-hostile", n=T(tier, 300, 10000), params={"frames": 200})] + MIRI_RUNS(tier),
     GEN + "Every scenario runs under the checking global allocator (layout recorded at alloc, compared at dealloc/realloc; live bytes of calls into uflow counted per scope); at the end both HalfConnections are dropped mid-state (delivered, skipped, partially assembled, resynchronised-away packets). Endpoint families (lifecycle, disconnect, limits): real Client / Server / RemoteClient handles created, connected, disconnected, timed out and dropped in every state of the lifecycle (also mid-transfer and mid-handshake, Server dropped with live connections); after the whole world is dropped the bytes allocated inside calls into uflow must be back to where they were; ep-partial-read: applications that read only the first 0..2 events of a step's iterator and drop it (unread Receive payloads stay the library's to release); ep-hostile: error paths of the handshake and of established connections under a raw hostile peer (a second release of a block is recorded by the allocator and withheld from the system allocator, so it is reported instead of crashing the worker). non-trivial: teardown checked and >= 1 reassembled multi-fragment packet freed (endpoint families: teardown checked).",
     "Allocator-contract monitor on every free in every scenario + leak check at teardown (scoped live bytes return to the pre-construction value). The thorough tier adds the same families under AddressSanitizer/LeakSanitizer (nightly) and a small subset interpreted by Miri with tree borrows (UB, layout on deallocation, leaks, data races incl. a Send/Sync workload).",
@@ -259,6 +261,8 @@ EP_ASSUME = [
 EPGEN = ("Real uflow::server::Server and uflow::client::Client objects run over the in-process virtual network on the virtual clock; the harness is the network (per-datagram "
          "loss / duplication / delay / blackouts / targeted drops of the k-th SYN, SYN-ACK or ACK), can inject datagrams with any source address, and records every datagram "
          "sent and delivered plus every event and application call with virtual timestamps. distinct = hash of the scenario's counters and server event history. ")
+
+FID = ' ep-fidelity: the same scripted session (1..3 clients, mixed modes and sizes up to 12 kB in both directions, disconnects from either side) runs twice on the virtual clock, once over the virtual network (ideal) and once over REAL UDP sockets on 127.0.0.1 (std::net::UdpSocket, non-blocking recv loops, connected client sockets, UdpFrameSink); the monitors judge both runs, and the two event streams are compared (a difference after retries is an inconclusive note on the socket model, never a verdict).'
 
 def ep(family, q, t, tier, prop, **params):
     p = {"prop": prop}
@@ -285,7 +289,8 @@ ep_prop("C08",
     lambda tier: [ep("lifecycle", 1500, 60000, tier, "C08", max_clients=T(tier, 4, 16)),
                   ep("disconnect", 600, 20000, tier, "C08"),
                   ep("limits", 300, 10000, tier, "C08"),
-                  ep("timers", 300, 10000, tier, "C08")],
+                  ep("timers", 300, 10000, tier, "C08"),
+                  dict(family="ep-fidelity", n=T(tier, 400, 20000), params={})],
     "lifecycle: random interleavings of send / disconnect / disconnect_now / drop / Server::drop / flush on 1..4 (thorough 16) clients and the server, faults on every frame type incl. blackouts, reconnects from the same address 0 ms..30 s after each kind of ending, finished clients stepped on for seconds. non-trivial: a connection reached Connect on the server and ended.",
     "Online automaton over every event returned by step(): Idle -Connect-> Up -Receive*-> Up -Disconnect|Error-> End, Idle -Error-> End, nothing after End; per client object and per address on the server (a new instance only after End; Server::drop counts as End).",
     "online event-stream automaton",
@@ -339,7 +344,8 @@ PROPS["C03"]["rule"] += (" ep-hostile: a real Server with an honest bystander cl
                          "connected and delivering, and a fresh client must connect within 30 s.")
 PROPS["C03"]["require_counters"] += ["c03_honest_bystanders_checked", "c03_post_attack_connects_checked", "c03_hostile_server_sessions"]
 _c01_runs = PROPS["C01"]["runs"]
-PROPS["C01"]["runs"] = lambda tier: _c01_runs(tier) + [ep("lifecycle", 300, 10000, tier, "C01"), ep("disconnect", 300, 10000, tier, "C01")]
+PROPS["C01"]["runs"] = lambda tier: _c01_runs(tier) + [ep("lifecycle", 300, 10000, tier, "C01"), ep("disconnect", 300, 10000, tier, "C01"), dict(family="ep-fidelity", n=T(tier, 300, 10000), params={})]
+PROPS["C01"]["rule"] += FID
 PROPS["C01"]["rule"] += (" lifecycle / disconnect (real Client/Server sessions): every packet an application is handed was submitted by the peer on that address pair and is handed over at most once "
                          "(Event::Receive carries no channel, so order is judged at the HalfConnection level only).")
 PROPS["C01"]["require_counters"] += ["ep_receives_checked"]
@@ -348,3 +354,6 @@ PROPS["C11"]["runs"] = lambda tier: _c11_runs(tier) + [ep("ep-recover", 400, 150
 PROPS["C11"]["rule"] += (" ep-recover: real Client/Server sessions (timeouts 20 s, keepalive 2 s) hit by one finite fault (first handshake ACKs lost, a blackout or loss burst of 0.1..6 s, loss at the start); afterwards the "
                          "connection must still be alive at +120 s and probe packets of each mode submitted 30..60 s after the network turned fair must arrive once the backlog has drained.")
 PROPS["C11"]["require_counters"] += ["c11_established_connections_watched"]
+
+for _p in ("C05", "C08", "C19"):
+    PROPS[_p]["rule"] += FID
